@@ -763,7 +763,18 @@ func runBulk(client *bulk.SeqDBClient, sc *script, self int, pays []payload) (re
 				if sc.Ragged && strings.Contains(fmt.Sprint(p), "index out of range") {
 					// the latent panic of ragged tiers (ModelFlat.v): the goroutines started before it
 					// still make their calls; the visit is not closed by the circuit
-					time.Sleep(3 * time.Millisecond)
+					for t0 := time.Now(); time.Since(t0) < 3*time.Second; time.Sleep(50 * time.Microsecond) {
+						rc.mu.Lock()
+						n, want := len(rc.pending), 1
+						if n > 0 { // the window length of the tier = replica count of its last shard
+							t := rc.tierOf(rc.pending[0].tier)
+							want = len(t[len(t)-1].Reps)
+						}
+						rc.mu.Unlock()
+						if n >= want {
+							break
+						}
+					}
 					rc.mu.Lock()
 					res.Panicked = true
 					if len(rc.pending) > 0 {
